@@ -256,6 +256,35 @@ fn c09_files<A: Subject>(run: &Run, cfg: &Cfg, thorough: bool) {
     run.states.insert(hash_of(&(A::SYNC, cfg, i)));
     run.nontrivial.insert(hash_of(&(A::SYNC, cfg, i)));
   }
+  // (a') the same file as a crash between the two steps of a removal would leave it (head node marked, still
+  // linked): a refused open must not run any repair on it
+  {
+    let hoff = ((r0 + 7) & !7) + 8;
+    let sentinel = u64::from_le_bytes(good[hoff..hoff + 8].try_into().unwrap());
+    let next = (sentinel & 0xffff_ffff) as usize;
+    if next != 0 && next != u32::MAX as usize && foff + next + 8 <= good.len() {
+      let mut marked = good.clone();
+      for b in &mut marked[foff + next + 4..foff + next + 8] {
+        *b = 0;
+      }
+      for i in 1..8 {
+        let mut b = marked.clone();
+        b[r0 + i] ^= 0x10;
+        let what = format!("interrupted-removal file, id-byte+{} flipped", i);
+        for mode in Mode::ALL {
+          for capo in [CapOpt::Absent, CapOpt::Same, CapOpt::Plus64] {
+            c09_try::<A>(run, &b, &p, cfg, mode, capo, cfg.fl, cfg.magic, &what, true);
+          }
+        }
+      }
+      // expecting another free-list kind / magic version than the (intact) identification bytes say
+      for (efl, em) in expects.iter().skip(1) {
+        for mode in Mode::ALL {
+          c09_try::<A>(run, &marked, &p, cfg, mode, CapOpt::Same, *efl, *em, "interrupted-removal file, other expectation", true);
+        }
+      }
+    }
+  }
   // (b) truncation to every length up to a little beyond the header
   let mut lens: Vec<usize> = (foff..=foff + cfg.data_offset() + 8).collect();
   if foff > 0 {
